@@ -9,10 +9,10 @@ import (
 	"fmt"
 	"io"
 	"log"
-	"net"
 	"net/http"
 	"net/http/httptest"
 	"sync/atomic"
+	"syscall"
 	"testing"
 	"time"
 
@@ -71,9 +71,17 @@ func TestHTTPErrorClasses(t *testing.T) {
 			url, terminal = srv.URL, true
 			tr.TLSClientConfig = &tls.Config{} // the test server's certificate is signed by nobody this client trusts
 		case "refused":
-			l, _ := net.Listen("tcp", "127.0.0.1:0")
-			url = "http://" + l.Addr().String() + "/x"
-			l.Close()
+			// a port that is bound but not listening: connections are refused, and nobody else can take the port meanwhile
+			fd, err := syscall.Socket(syscall.AF_INET, syscall.SOCK_STREAM, 0)
+			if err != nil {
+				harness.Inconclusive(t, "socket: %v", err)
+			}
+			defer syscall.Close(fd)
+			if err := syscall.Bind(fd, &syscall.SockaddrInet4{Addr: [4]byte{127, 0, 0, 1}}); err != nil {
+				harness.Inconclusive(t, "bind: %v", err)
+			}
+			sa, _ := syscall.Getsockname(fd)
+			url = fmt.Sprintf("http://127.0.0.1:%d/x", sa.(*syscall.SockaddrInet4).Port)
 		case "reset":
 			srv := httptest.NewServer(http.HandlerFunc(func(w http.ResponseWriter, r *http.Request) {
 				served.Add(1)
